@@ -249,6 +249,9 @@ inductive Op
   | mkrev
   /-- make object `i` the current one -/
   | use (i : Nat)
+  /-- `NewX(n, es…)` of the same Go type as the current object: a further, unrelated object of the world (the
+  current object stays current) -/
+  | mknew (n : Nat) (es : List EdgeIn)
   deriving Repr
 
 /-- the objects a client holds, and the one the next call goes to -/
@@ -268,6 +271,7 @@ def World.step (w : World) : Op → World × Outcome Answer
   | .query q => (w, w.obj.answer q)
   | .mkrev => (if w.obj.kind.isDirected then { w with objs := w.objs.push w.obj.reverse } else w, .ok .unit)
   | .use i => (if i < w.objs.size then { w with cur := i } else w, .ok .unit)
+  | .mknew n es => ({ w with objs := w.objs.push (GObj.build w.obj.kind n es) }, .ok .unit)
 
 /-- a history: the final world and one outcome per step (a `panic` — an out-of-range argument of a query —
 leaves the objects as they are, as in Go; the harness ends a case there) -/
